@@ -344,18 +344,14 @@ def r1_7(ctx: Ctx) -> RuleResult:
         raise AnalysisError("R1.7: the lexer has no rule whose matches are skipped")
     blanks = {" ", "\t", "\n", "\r"}
     covered = set()
-    for rule in lex.skipped:
-        seq = list(regexast.parse(lex.rule_pattern(rule), lex.master.flags))
-        rep = regexast.single_repeat(seq)
-        if rep is None or rep[0] < 1:
-            continue
-        body = list(rep[2])
-        if len(body) == 1:
-            cs = regexast.char_set(body[0])
-            if cs and not cs[0]:
-                covered |= {c for c in cs[1] if isinstance(c, str)}
-                if "CATEGORY_SPACE" in cs[1]:
-                    covered |= blanks
+    # decided on the reconstructed master pattern: at a blank, the rule that wins is a skipped one and it
+    # consumes the blank (whatever the shape of the skip rule: one class, an alternation ...)
+    rx = lex.compiled()
+    for b in sorted(blanks):
+        m = rx.match(b + "a")
+        m2 = rx.match(b + b + "a")
+        if m is not None and m.lastgroup in lex.skipped and m.group() == b and m2 is not None and m2.lastgroup in lex.skipped:
+            covered.add(b)
     missing = blanks - covered
     if missing:
         rr.bad(lex.compile_fn, None, f"the skip rule does not cover the blank character(s) {sorted(missing)!r}",
@@ -531,4 +527,61 @@ def r1_10(ctx: Ctx) -> RuleResult:
     return rr
 
 
-RULES = [r1_1, r1_2, r1_3, r1_4, r1_5, r1_6, r1_7, r1_8, r1_9, r1_10]
+def _name_tokens(toks):  # type: ignore[no-untyped-def]
+    """Token stream with the two spellings of a member name (`.a` and a bare `a`) made one."""
+    out = []
+    for rule, kinds, text in toks:
+        if kinds == "PROP":
+            out.append(("NAME", text[1:] if text.startswith(".") else text))
+        elif kinds == "BARE_PROPERTY":
+            out.append(("NAME", text))
+        else:
+            out.append((kinds, text))
+    return out
+
+
+def r1_11(ctx: Ctx) -> RuleResult:
+    """RFC 9535: `segments = *(S segment)` - blank space may precede any segment.  The reconstructed master
+    pattern (constants folded from the lexer, matched with the standard `re` module) must give the same tokens
+    for a segment with and without a blank in front of it: `$ ..a` is `$..a`, `$ .true` is `$.true`."""
+    rr = RuleResult("R1.11", "blank space before a segment does not change its tokens", floor=20)
+    lex = ctx.lexer
+    where = lex.compile_fn.loc()
+    segments = ["..a", "..*", "..[0]", "..['a']", ".a", ".true", ".*", "[0]", "['a']"]
+    seen = set()
+    for seg in segments:
+        want = _name_tokens(lex.classify("$" + seg))
+        for blank in (" ", "\t", "\n", "\r"):
+            got = _name_tokens(lex.classify("$" + blank + seg))
+            if got == want:
+                rr.ok(where, f"`$<{blank!r}>{seg}` lexes as `${seg}`")
+                continue
+            if seg in seen:
+                continue
+            seen.add(seg)
+            rr.bad(lex.compile_fn, lex.compile_fn.node,
+                   f"`${blank}{seg}` is lexed as {[k for k, _ in got]} but `${seg}` as {[k for k, _ in want]}: blank space before "
+                   "a segment, which RFC 9535 allows, changes the meaning of the query (or makes it a syntax error)",
+                   construct=f"blank before `{seg}`: {[k for k, _ in got]} instead of {[k for k, _ in want]}")
+    return rr
+
+
+def r1_12(ctx: Ctx) -> RuleResult:
+    """The descendant shorthand `..name` spells every name whose first character RFC 9535 allows (ALPHA, `_`,
+    non-ASCII); the documented departure is reserved *words* only."""
+    rr = RuleResult("R1.12", "the descendant shorthand admits every RFC first character", floor=1)
+    lex = ctx.lexer
+    where = lex.compile_fn.loc()
+    for c, label in (("a", "ALPHA"), ("Z", "ALPHA"), ("_", "`_`"), ("\u00e9", "%x80-D7FF"), ("\U0001f600", "%x10000-10FFFF")):
+        name = c + "x"
+        got = _name_tokens(lex.classify("$.." + name))
+        if [k for k, _ in got] == ["ROOT", "DDOT", "NAME"] and got[-1][1] == name:
+            rr.ok(where, f"`$..{name}` is a descendant segment with the name {name!r}")
+        else:
+            rr.bad(lex.compile_fn, lex.compile_fn.node,
+                   f"`$..{name}` (first character {label}) is lexed as {[k for k, _ in got]}: the descendant shorthand cannot "
+                   "spell this name although it is not a reserved word", construct=f"descendant shorthand `..{label}`")
+    return rr
+
+
+RULES = [r1_1, r1_2, r1_3, r1_4, r1_5, r1_6, r1_7, r1_8, r1_9, r1_10, r1_11, r1_12]
